@@ -42,7 +42,10 @@ import (
 	"verif/internal/vrun"
 )
 
-const bound = 128 // further backend operations allowed after the cancellation instant (sequential entry points)
+const flatEntries = 2000 // entries of the flat directory garbage-collected by one fan-out
+const flatBound = 1000   // further backend operations allowed there (≤ 1/2 operation per entry left; in-flight goroutines finish their entry)
+const startedBound = 100 // fan-out: entries first touched after the cancellation instant (goroutines caught between their context check and their first operation)
+const bound = 128        // further backend operations allowed after the cancellation instant (sequential entry points)
 
 // ---------------------------------------------------------------------------------------------
 // Part B: filesystem entry points
@@ -73,7 +76,10 @@ func entryPoints() []entryPoint {
 		{name: "WalkWithContextAndExclusionPatterns", method: "WalkWithContextAndExclusionPatterns", call: func(ctx context.Context, e *env) error {
 			return e.vfs.WalkWithContextAndExclusionPatterns(ctx, e.p("src"), nopWalk, "^never-matches-zzz$")
 		}},
-		{name: "LsRecursive", method: "LsRecursive", call: func(ctx context.Context, e *env) error { _, err := e.vfs.LsRecursive(ctx, e.p("src"), true); return err }},
+		{name: "LsRecursive", method: "LsRecursive", call: func(ctx context.Context, e *env) error {
+			_, err := e.vfs.LsRecursive(ctx, e.p("src"), true)
+			return err
+		}},
 		{name: "LsRecursiveWithExclusionPatterns", method: "LsRecursiveWithExclusionPatterns", call: func(ctx context.Context, e *env) error {
 			_, err := e.vfs.LsRecursiveWithExclusionPatterns(ctx, e.p("src"), false, "^never-matches-zzz$")
 			return err
@@ -99,18 +105,29 @@ func entryPoints() []entryPoint {
 			var l []string
 			return e.vfs.ListDirTreeWithContextAndExclusionPatterns(ctx, e.p("src"), &l, "^never-matches-zzz$")
 		}},
-		{name: "SubDirectoriesWithContext", method: "SubDirectoriesWithContext", call: func(ctx context.Context, e *env) error { _, err := e.vfs.SubDirectoriesWithContext(ctx, e.p("wide")); return err }},
+		{name: "SubDirectoriesWithContext", method: "SubDirectoriesWithContext", call: func(ctx context.Context, e *env) error {
+			_, err := e.vfs.SubDirectoriesWithContext(ctx, e.p("wide"))
+			return err
+		}},
 		{name: "SubDirectoriesWithContextAndExclusionPatterns", method: "SubDirectoriesWithContextAndExclusionPatterns", call: func(ctx context.Context, e *env) error {
 			_, err := e.vfs.SubDirectoriesWithContextAndExclusionPatterns(ctx, e.p("wide"), "^never-matches-zzz$")
 			return err
 		}},
-		{name: "CopyWithContext", method: "CopyWithContext", mutating: true, call: func(ctx context.Context, e *env) error { return e.vfs.CopyWithContext(ctx, e.p("src"), e.p("dst/copy")) }},
+		{name: "CopyWithContext", method: "CopyWithContext", mutating: true, call: func(ctx context.Context, e *env) error {
+			return e.vfs.CopyWithContext(ctx, e.p("src"), e.p("dst/copy"))
+		}},
 		{name: "CopyWithContextAndExclusionPatterns", method: "CopyWithContextAndExclusionPatterns", mutating: true, call: func(ctx context.Context, e *env) error {
 			return e.vfs.CopyWithContextAndExclusionPatterns(ctx, e.p("src"), e.p("dst/copy"), "^never-matches-zzz$")
 		}},
-		{name: "CopyToDirectoryWithContext", method: "CopyToDirectoryWithContext", mutating: true, call: func(ctx context.Context, e *env) error { return e.vfs.CopyToDirectoryWithContext(ctx, e.p("src"), e.p("dst/into")) }},
-		{name: "CopyToFileWithContext", method: "CopyToFileWithContext", mutating: true, call: func(ctx context.Context, e *env) error { return e.vfs.CopyToFileWithContext(ctx, e.p("big.bin"), e.p("dst/big-copy.bin")) }},
-		{name: "MoveWithContext(rename)", method: "MoveWithContext", mutating: true, call: func(ctx context.Context, e *env) error { return e.vfs.MoveWithContext(ctx, e.p("src"), e.p("dst/moved")) }},
+		{name: "CopyToDirectoryWithContext", method: "CopyToDirectoryWithContext", mutating: true, call: func(ctx context.Context, e *env) error {
+			return e.vfs.CopyToDirectoryWithContext(ctx, e.p("src"), e.p("dst/into"))
+		}},
+		{name: "CopyToFileWithContext", method: "CopyToFileWithContext", mutating: true, call: func(ctx context.Context, e *env) error {
+			return e.vfs.CopyToFileWithContext(ctx, e.p("big.bin"), e.p("dst/big-copy.bin"))
+		}},
+		{name: "MoveWithContext(rename)", method: "MoveWithContext", mutating: true, call: func(ctx context.Context, e *env) error {
+			return e.vfs.MoveWithContext(ctx, e.p("src"), e.p("dst/moved"))
+		}},
 		{name: "RemoveWithContext", method: "RemoveWithContext", mutating: true, call: func(ctx context.Context, e *env) error { return e.vfs.RemoveWithContext(ctx, e.p("src")) }},
 		{name: "RemoveWithContextAndExclusionPatterns", method: "RemoveWithContextAndExclusionPatterns", mutating: true, call: func(ctx context.Context, e *env) error {
 			return e.vfs.RemoveWithContextAndExclusionPatterns(ctx, e.p("src"), "^never-matches-zzz$")
@@ -123,6 +140,9 @@ func entryPoints() []entryPoint {
 		{name: "GarbageCollectWithContext", method: "GarbageCollectWithContext", mutating: true, fanout: true, call: func(ctx context.Context, e *env) error {
 			return e.vfs.GarbageCollectWithContext(ctx, e.p("src"), 0)
 		}},
+		{name: "GarbageCollectWithContext#flat", method: "GarbageCollectWithContext", mutating: true, fanout: true, call: func(ctx context.Context, e *env) error {
+			return e.vfs.GarbageCollectWithContext(ctx, e.p("flat"), 0)
+		}},
 		{name: "ChmodRecursively", method: "ChmodRecursively", mutating: true, call: func(ctx context.Context, e *env) error { return e.vfs.ChmodRecursively(ctx, e.p("src"), 0o755) }},
 		{name: "ChownRecursively", method: "ChownRecursively", mutating: true, call: func(ctx context.Context, e *env) error {
 			return e.vfs.ChownRecursively(ctx, e.p("src"), os.Getuid(), os.Getgid())
@@ -134,19 +154,27 @@ func entryPoints() []entryPoint {
 			}
 			return e.vfs.ChangeOwnershipRecursively(ctx, e.p("src"), u)
 		}},
-		{name: "ZipWithContext", method: "ZipWithContext", mutating: true, call: func(ctx context.Context, e *env) error { return e.vfs.ZipWithContext(ctx, e.p("src"), e.p("dst/out.zip")) }},
+		{name: "ZipWithContext", method: "ZipWithContext", mutating: true, call: func(ctx context.Context, e *env) error {
+			return e.vfs.ZipWithContext(ctx, e.p("src"), e.p("dst/out.zip"))
+		}},
 		{name: "ZipWithContextAndLimits", method: "ZipWithContextAndLimits", mutating: true, call: func(ctx context.Context, e *env) error {
 			return e.vfs.ZipWithContextAndLimits(ctx, e.p("src"), e.p("dst/out.zip"), lim)
 		}},
 		{name: "ZipWithContextAndLimitsAndExclusionPatterns", method: "ZipWithContextAndLimitsAndExclusionPatterns", mutating: true, call: func(ctx context.Context, e *env) error {
 			return e.vfs.ZipWithContextAndLimitsAndExclusionPatterns(ctx, e.p("src"), e.p("dst/out.zip"), lim, "^never-matches-zzz$")
 		}},
-		{name: "UnzipWithContext", method: "UnzipWithContext", mutating: true, call: func(ctx context.Context, e *env) error { _, err := e.vfs.UnzipWithContext(ctx, e.p("tree.zip"), e.p("dst/unz")); return err }},
+		{name: "UnzipWithContext", method: "UnzipWithContext", mutating: true, call: func(ctx context.Context, e *env) error {
+			_, err := e.vfs.UnzipWithContext(ctx, e.p("tree.zip"), e.p("dst/unz"))
+			return err
+		}},
 		{name: "UnzipWithContextAndLimits", method: "UnzipWithContextAndLimits", mutating: true, call: func(ctx context.Context, e *env) error {
 			_, err := e.vfs.UnzipWithContextAndLimits(ctx, e.p("tree.zip"), e.p("dst/unz"), lim)
 			return err
 		}},
-		{name: "ReadFileWithContext", method: "ReadFileWithContext", call: func(ctx context.Context, e *env) error { _, err := e.vfs.ReadFileWithContext(ctx, e.p("big.bin")); return err }},
+		{name: "ReadFileWithContext", method: "ReadFileWithContext", call: func(ctx context.Context, e *env) error {
+			_, err := e.vfs.ReadFileWithContext(ctx, e.p("big.bin"))
+			return err
+		}},
 		{name: "ReadFileWithContextAndLimits", method: "ReadFileWithContextAndLimits", call: func(ctx context.Context, e *env) error {
 			_, err := e.vfs.ReadFileWithContextAndLimits(ctx, e.p("big.bin"), lim)
 			return err
@@ -171,7 +199,10 @@ func entryPoints() []entryPoint {
 			_, err := e.vfs.FileHashWithContext(ctx, hashing.HashSha256, e.p("big.bin"))
 			return err
 		}},
-		{name: "IsZipWithContext", method: "IsZipWithContext", call: func(ctx context.Context, e *env) error { _, err := e.vfs.IsZipWithContext(ctx, e.p("tree.zip")); return err }},
+		{name: "IsZipWithContext", method: "IsZipWithContext", call: func(ctx context.Context, e *env) error {
+			_, err := e.vfs.IsZipWithContext(ctx, e.p("tree.zip"))
+			return err
+		}},
 	}
 }
 
@@ -233,6 +264,8 @@ func buildFixtures(r *vrun.Run) {
 
 func needsOf(name string) string {
 	switch {
+	case strings.HasSuffix(name, "#flat"):
+		return "f"
 	case strings.HasPrefix(name, "SubDirectories"):
 		return "w"
 	case strings.HasPrefix(name, "ReadFile"), name == "FileHashWithContext", name == "CopyToFileWithContext":
@@ -249,6 +282,17 @@ func setup(base afero.Fs, root string, needs string) error {
 	if strings.Contains(needs, "s") {
 		if err := treegen.MaterializeAfero(base, filepath.Join(root, "src"), treeNodes); err != nil {
 			return err
+		}
+	}
+	if strings.Contains(needs, "f") {
+		// one flat directory: every entry is handled by its own goroutine of the same fan-out
+		if err := base.MkdirAll(filepath.Join(root, "flat"), 0o755); err != nil {
+			return err
+		}
+		for i := 0; i < flatEntries; i++ {
+			if err := afero.WriteFile(base, filepath.Join(root, "flat", fmt.Sprintf("f%04d", i)), []byte("x"), 0o644); err != nil {
+				return err
+			}
 		}
 	}
 	if strings.Contains(needs, "w") {
@@ -272,14 +316,24 @@ func setup(base afero.Fs, root string, needs string) error {
 	return nil
 }
 
+type pathState struct {
+	before atomic.Bool  // a backend operation on this path began before the cancellation instant
+	after  atomic.Int64 // backend operations on this path begun after it
+}
+
 type runResult struct {
-	err        error
-	ops        int64 // total backend ops of the call
-	opsAfter   int64 // backend ops that began after the cancellation instant
-	mutAfter   int64
-	cancelled  bool
+	err         error
+	ops         int64 // total backend ops of the call
+	opsAfter    int64 // backend ops that began after the cancellation instant
+	mutAfter    int64
+	cancelled   bool
 	listStarted int64 // directory listings started before cancel (GC bound)
-	trace      []string
+	// fan-out entry points: per-path view of what happened after the cancellation instant
+	startedAfter   int64 // distinct paths whose very first backend operation began after the cancellation instant
+	maxPerPath     int64 // largest number of operations begun after the cancellation instant on one path
+	maxPerPathName string
+	startedSample  []string
+	trace          []string
 }
 
 // runOnce executes ep on a fresh sandbox with the context cancelled from inside the k-th backend
@@ -321,8 +375,26 @@ func runOnce(ep entryPoint, mem bool, scratch string, k int64, keepTrace bool) (
 	var cancelledAt atomic.Int64
 	mon := fsmon.NewMonitor(false)
 	var tmu sync.Mutex
+	states := map[string]*pathState{} // read-only once the call has started
+	if ep.fanout {
+		_ = afero.Walk(base, root, func(p string, _ os.FileInfo, err error) error {
+			if err == nil {
+				states[p] = &pathState{}
+			}
+			return nil
+		})
+	}
 	mon.Before = func(e *fsmon.Event) {
-		if cancelledAt.Load() != 0 {
+		isAfter := cancelledAt.Load() != 0
+		if st := states[e.Path]; st != nil {
+			// lock-free: a lock here would queue the goroutines of the fan-out between their context check and this hook
+			if isAfter {
+				st.after.Add(1)
+			} else {
+				st.before.Store(true)
+			}
+		}
+		if isAfter {
 			after64.Add(1)
 			if e.Mut {
 				mutAfter.Add(1)
@@ -341,8 +413,10 @@ func runOnce(ep entryPoint, mem bool, scratch string, k int64, keepTrace bool) (
 	mon.After = func(e *fsmon.Event) {
 		n := count.Add(1)
 		if k > 0 && n == k {
-			cancelledAt.Store(e.Seq)
+			// the instant is published once cancel() has returned: an operation is only counted as "after" when the
+			// context check preceding it could already see the cancellation
 			cancel()
+			cancelledAt.Store(e.Seq)
 		}
 	}
 	fsType := filesystem.StandardFS
@@ -361,11 +435,37 @@ func runOnce(ep entryPoint, mem bool, scratch string, k int64, keepTrace bool) (
 	case <-time.After(120 * time.Second):
 		return nil, nil, nil, errors.New("watchdog: call did not return within 120 s")
 	}
+	if ep.fanout {
+		// goroutines of the fan-out may outlive the call: wait for the backend to become quiet (not a verdict, just settling)
+		last, quiet := count.Load(), 0
+		for i := 0; i < 1000 && quiet < 5; i++ {
+			time.Sleep(10 * time.Millisecond)
+			if n := count.Load(); n == last {
+				quiet++
+			} else {
+				last, quiet = n, 0
+			}
+		}
+	}
 	res.ops = count.Load()
 	res.opsAfter = after64.Load()
 	res.mutAfter = mutAfter.Load()
 	res.cancelled = cancelledAt.Load() != 0
 	res.listStarted = lists.Load()
+	if ep.fanout {
+		for p, st := range states {
+			n := st.after.Load()
+			if n > 0 && !st.before.Load() {
+				res.startedAfter++
+				if len(res.startedSample) < 12 {
+					res.startedSample = append(res.startedSample, strings.TrimPrefix(p, root))
+				}
+			}
+			if n > res.maxPerPath {
+				res.maxPerPath, res.maxPerPathName = n, strings.TrimPrefix(p, root)
+			}
+		}
+	}
 	if k == 0 {
 		after = takeSnap()
 	}
@@ -431,6 +531,9 @@ func partB(r *vrun.Run, scratch string) {
 				if r.Quick() && k > 50 && rng.IntN(r.Pick(120, 1)) != 0 {
 					continue
 				}
+				if strings.HasSuffix(ep.name, "#flat") && k > 20 && rng.IntN(r.Pick(400, 40)) != 0 {
+					continue
+				}
 				if !r.Quick() && dry.ops > 3000 && k > 200 && rng.IntN(4) != 0 {
 					continue
 				}
@@ -485,6 +588,9 @@ func partB(r *vrun.Run, scratch string) {
 		if j.ep.fanout {
 			b = 17 * (1 + res.listStarted*8)
 		}
+		if strings.HasSuffix(j.ep.name, "#flat") {
+			b = flatBound
+		}
 		decisive := remaining >= 10*b
 		if j.ep.fanout {
 			decisive = remaining >= 4*b
@@ -501,6 +607,36 @@ func partB(r *vrun.Run, scratch string) {
 			return
 		}
 		r.Obs("mid_run_cancellations_judged", 1)
+		if j.ep.fanout {
+			// One goroutine per entry: what each of them does once the context has ended is judged per entry.
+			// (a) no work is started for an entry after the cancellation instant, beyond the goroutines which were between
+			//     their context check and their first backend operation at that instant;
+			// (b) an entry already being handled gets a bounded number of further operations;
+			// (c) the total is then (entries in flight) × (b): the fan-out being unbounded, so is the total.
+			r.ObsMax("max_entries_started_after_cancel_"+j.ep.name, res.startedAfter)
+			r.ObsMax("max_ops_after_cancel_on_one_entry_"+j.ep.name, res.maxPerPath)
+			switch {
+			case res.startedAfter > startedBound:
+				w := witness()
+				w["entries_first_touched_after_cancel"] = res.startedAfter
+				w["some_of_them"] = res.startedSample
+				r.Violation(vrun.Sig{"clause": "context-ends-while-running", "effect": "work-started-on-new-entries", "ep": j.ep.name, "backend": backend},
+					fmt.Sprintf("%s: context cancelled inside backend op %d of %d; %d entries were first touched after that instant (bound %d), e.g. %v", j.ep.name, j.k, j.n, res.startedAfter, startedBound, res.startedSample), w)
+			case res.maxPerPath > bound:
+				r.Violation(vrun.Sig{"clause": "context-ends-while-running", "effect": "too-many-further-backend-ops-on-one-entry", "ep": j.ep.name, "backend": backend},
+					fmt.Sprintf("%s: context cancelled inside backend op %d of %d; %d further backend operations were issued on %s (bound %d)", j.ep.name, j.k, j.n, res.maxPerPath, res.maxPerPathName, bound), witness())
+			case res.opsAfter > b:
+				w := witness()
+				w["entries_first_touched_after_cancel"] = res.startedAfter
+				w["max_ops_after_cancel_on_one_entry"] = res.maxPerPath
+				r.Violation(vrun.Sig{"clause": "context-ends-while-running", "effect": "entries-in-flight-of-unbounded-fan-out-finish", "ep": strings.TrimSuffix(j.ep.name, "#flat")},
+					fmt.Sprintf("%s: context cancelled inside backend op %d of %d; %d further backend operations were issued (bound %d) by the goroutines already handling an entry (at most %d on one entry, %d entries first touched afterwards)", j.ep.name, j.k, j.n, res.opsAfter, b, res.maxPerPath, res.startedAfter), w)
+			case !kindOK(res.err):
+				r.Violation(vrun.Sig{"clause": "context-ends-while-running", "effect": "wrong-kind", "ep": j.ep.name, "backend": backend, "result": resultClass(res.err)},
+					fmt.Sprintf("%s: context cancelled inside backend op %d of %d (≥ %d operations of work left); returned %v", j.ep.name, j.k, j.n, remaining, res.err), witness())
+			}
+			return
+		}
 		if res.opsAfter > b {
 			r.Violation(vrun.Sig{"clause": "context-ends-while-running", "effect": "too-many-further-backend-ops", "ep": j.ep.name, "backend": backend},
 				fmt.Sprintf("%s: context cancelled inside backend op %d of %d; %d further backend operations were issued (bound %d)", j.ep.name, j.k, j.n, res.opsAfter, b), witness())
@@ -537,6 +673,7 @@ func main() {
 	buildFixtures(r)
 	partA(r)
 	partB(r, scratch)
+	partC(r, scratch)
 	r.Require("pre_cancelled_runs_judged", 60)
 	r.Require("mid_run_cancellations_judged", int64(r.Pick(800, 40000)))
 	r.Require("entry_points", 70)
